@@ -238,7 +238,26 @@ def run(ctx):
             g = p.resolve_func(ps.mod, c.func)
             if g is not None and "symbols" in ast.unparse(g.node) and any(isinstance(n, ast.Raise) for n in walk_local(g.node)):
                 ve, vcall = g, c
+    inline_raises = []
     if ve is None:
+        # the checks may stand in the arm itself (the helper folded into the parser)
+        for n in en:
+            if isinstance(n, ast.Raise) and n.exc is not None and "SchemaParseException" in norm(n.exc):
+                fs = true_facts(cfg, cfg.node_of(n))
+                if any("symbols" in g or "fullmatch(" in g or "'default' in" in g for g in fs):
+                    inline_raises.append((n, fs))
+    if ve is None and inline_raises:
+        regs = [n for n in en if isinstance(n, ast.Assign) and norm(n.targets[0]).startswith(f"{R.named}[")]
+        ok = bool(regs) and not any(cfg.node_of(r_) in cfg.reachable_from(cfg.node_of(reg)) for (r_, _) in inline_raises for reg in regs)
+        ctx.check("C11.R4", "enum arm: symbols are validated before the definition is registered", ok, ps.where(inline_raises[0][0]), "_parse_schema enum arm: symbol validation placement", "an ill-formed enum must be rejected before it becomes visible in the name table")
+        facts = [" && ".join(sorted(fs)) for (_, fs) in inline_raises]
+        ok_sym = any("not isinstance(" in g and "str)" in g and "fullmatch(" in g for g in facts)
+        ok_uni = any("len(" in g and "set(" in g and "!=" in g for g in facts)
+        ok_def = any("'default' in" in g and "not in" in g for g in facts)
+        ctx.check("C11.R4", "every symbol must be a string fully matching the name pattern", ok_sym, ps.where(enum), f"enum arm guards: {facts}", "malformed symbols are not rejected (fullmatch on each symbol, strings only)")
+        ctx.check("C11.R4", "duplicate symbols are rejected", ok_uni, ps.where(enum), f"enum arm guards: {facts}", "duplicate symbols are not rejected")
+        ctx.check("C11.R4", "an enum default outside the symbol list is rejected (whenever a default is present)", ok_def, ps.where(enum), f"enum arm guards: {facts}", "a default that is not a symbol is not rejected (the test must be on the presence of the key, not on the default's truthiness)")
+    elif ve is None:
         ctx.violation("C11.R4", "enum arm calls the symbol checker", ps.where(enum) if enum else ps.where(), "_parse_schema enum arm: no symbol validation call", "enum symbols are not validated")
     else:
         regs = [n for n in en if isinstance(n, ast.Assign) and norm(n.targets[0]).startswith(f"{R.named}[")]
